@@ -848,3 +848,323 @@ def replay_history(prop, obj, path, vh):
 
 REPLAYERS["tree"] = replay_tree
 REPLAYERS["search-history"] = replay_history
+
+
+# --------------------------------------------------------------------------- session layer (real binary over UCI)
+
+import session as sessmod  # noqa: E402
+
+SESSION_ASSUME = ["transcripts come from the real binary built from /repo with the hooks on; main-thread replies are delimited by isready fences",
+                  "timing judgements use the driver's own clock with a tolerance of 2.5 s (detects 'never fires', not jitter)",
+                  "a GUI issues the next go only after the previous one was answered (UCI discipline); all other commands at any time"]
+
+
+def run_sessions(run, prop, sessions, judged, label, par=core.NPROC):
+    """sessions: list of dicts {id, binary, env, steps}.  Runs them (in parallel), writes one trace per
+    worker, lets TraceSession.tla judge.  Returns list of (trace, events)."""
+    d = os.path.join(game.TRACES, prop)
+    os.makedirs(d, exist_ok=True)
+    chunks = [sessions[i::par] for i in range(par)]
+
+    def mk(ic):
+        i, chunk = ic
+        out = os.path.join(d, "%s-%d.ndjson" % (label, i))
+        index = []
+        with open(out, "w") as f:
+            n = 0
+            for sdef in chunk:
+                evs = [{"ev": "session", "id": sdef["id"]}] + sessmod.run(sdef["binary"], sdef["steps"], env=sdef.get("env"))
+                index.append((n + 1, n + len(evs), sdef))
+                n += len(evs)
+                for e in evs:
+                    f.write(json.dumps(e) + "\n")
+        return out, index
+    outs = core.pmap(mk, [(i, c) for i, c in enumerate(chunks) if c], n=par)
+
+    def judge(oi):
+        return oi, core.tlc_trace(oi[0], spec="TraceSession")
+    total = 0
+    for (out, index), res in core.pmap(judge, outs):
+        run.cov["traces_validated_against_impl"] += 1
+        run.cov["events_validated"] += res["events"]
+        total += res["events"]
+        for f in res["fails"]:
+            if f["p"] in judged or f["p"] == "PANIC":
+                sdef = next((sd for a, b, sd in index if a <= f["line"] <= b), None)
+                rp = {"driver": "uci-session", "session": None}
+                if sdef:
+                    rp["session"] = {"id": sdef["id"], "env": sdef.get("env", {}), "steps": sdef["steps"], "checked_build": "checked" in sdef["binary"]}
+                run.violation(f, rp)
+    return outs, total
+
+
+def replay_session(prop, obj, path, vh):
+    sd = obj["session"]
+    binary = core.build_bin(bool(sd.get("checked_build")))
+    d = game.trace_dir(prop + "-replay")
+    out = os.path.join(d, "session.ndjson")
+    bad = []
+    for attempt in range(3):
+        evs = [{"ev": "session", "id": sd["id"]}] + sessmod.run(binary, sd["steps"], env=sd.get("env"))
+        with open(out, "w") as f:
+            for e in evs:
+                f.write(json.dumps(e) + "\n")
+        res = core.tlc_trace(out, spec="TraceSession")
+        bad = [f for f in res["fails"] if f["p"] in (prop, "PANIC")]
+        if bad:
+            break
+    for f in bad:
+        print("VIOLATION property=%s replay=%s" % (prop, path))
+        print("  " + json.dumps({"w": f["w"], "d": f["d"]})[:600])
+    print("replayed session %s: %s" % (sd["id"], "property violated" if bad else "no violation in 3 attempts"))
+    sys.exit(1 if bad else 0)
+
+
+REPLAYERS["uci-session"] = replay_session
+
+
+@check("C13")
+def c13(tier, seed):
+    import random
+    run = core.Run("C13", tier, seed)
+    prepare()
+    quick = tier == "quick"
+    rnd = random.Random(seed)
+    binary = core.build_bin(False)
+    checked = core.build_bin(True)
+    game.trace_dir("C13")
+    # (M) the boundary grid, enumerated (and the engine's formula checked against Allowed) by TLC
+    res = core.tlc_mc("TimeBudget", "mc/TimeBudget.cfg", workers=4, tag="c13-grid")
+    if res["violated"]:
+        raise core.ToolError("TimeBudget.tla: design-level formula violates %s" % res["violated"])
+    grid = [json.loads(core._unescape(m)) for m in re.findall(r'^<<"GRID", "(.*)">>$', res["output"], re.M)]
+    res["output"] = ""
+    run.add_mc(res, {"grid_points": len(grid)})
+    if quick:
+        rnd.shuffle(grid)
+        pass
+    POS = {"w": "position startpos", "b": "position startpos moves e2e4"}
+
+    def go_of(g):
+        if g["kind"] == "movetime":
+            return "go movetime %d" % g["mt"]
+        w, b = (g["own"], g["opp"]) if g["side"] == "w" else (g["opp"], g["own"])
+        wi, bi = (g["inc"], g["oinc"]) if g["side"] == "w" else (g["oinc"], g["inc"])
+        return "go wtime %d btime %d winc %d binc %d" % (w, b, wi, bi)
+    # one engine process handles a batch of grid points: position, go, stop
+    sessions = []
+    batch = 40
+    for bname, b in (("release", binary), ("checked", checked)):
+        pts = grid if bname == "release" else grid[:: (2 if quick else 1)]
+        for k in range(0, len(pts), batch):
+            steps = []
+            for g in pts[k:k + batch]:
+                steps += [{"send": POS[g["side"]]}, {"send": go_of(g)}, {"send": "stop"}, {"waitbest": 6}]
+            steps.append({"quit": True})
+            sessions.append({"id": "grid-%s-%d" % (bname, k), "binary": b, "steps": steps})
+    # "announced within it": small budgets, no stop; the engine must answer by itself
+    timed = []
+    for mt in [0, 1, 4, 5, 6, 20, 50, 120, 300]:
+        for side in ("w", "b"):
+            timed.append({"id": "timed-movetime-%d-%s" % (mt, side), "binary": binary,
+                          "steps": [{"send": POS[side]}, {"send": "go movetime %d" % mt}, {"waitbest": 6}, {"quit": True}]})
+    for clock, inc in [(0, 0), (100, 0), (7400, 0), (7600, 0), (9000, 0), (20000, 0), (1000, 200), (50, 400), (0, 151), (100, 10000)]:
+        for side in ("w", "b"):
+            w = "go wtime %d btime %d winc %d binc %d" % ((clock, 5000, inc, 0) if side == "w" else (5000, clock, 0, inc))
+            timed.append({"id": "timed-clock-%d-%d-%s" % (clock, inc, side), "binary": binary,
+                          "steps": [{"send": POS[side]}, {"send": w}, {"waitbest": 8}, {"quit": True}]})
+    outs, n1 = run_sessions(run, "C13", sessions, {"C13"}, "grid")
+    outs2, n2 = run_sessions(run, "C13", timed, {"C13"}, "timed", par=6)
+    gos = 0
+    seen = set()
+    for out, _ in outs + outs2:
+        for l in open(out):
+            e = json.loads(l)
+            if e.get("ev") == "cmd" and e.get("kind") == "go":
+                gos += 1
+                seen.add(e["text"])
+                if len(run.cov["samples"]) < 5 and ("infotime" in e) and gos % 97 == 1:
+                    run.sample({"cmd": e["text"], "info_time": e.get("infotime"), "overflow": e.get("infotime_overflow")})
+    run.cov["evaluations"] = gos
+    run.cov["distinct_nontrivial"] = len(seen)
+    run.cov["rule"] = ("one case = one go command with clocks/increments or a move time, from the TLC-enumerated boundary grid (both sides to "
+                       "move, release and checked build); TLC requires 0 <= info time <= time remaining for the mover and no overflow; small "
+                       "budgets are additionally left to expire and the bestmove must arrive within budget + tolerance; distinct = distinct go texts")
+    run.assumptions += SESSION_ASSUME + ["clock values are limited to 2^31-1 ms (TLC integers)"]
+    shutil.rmtree(os.path.join(game.TRACES, "C13"), ignore_errors=True)
+    run.finish()
+
+
+WINDOWS = ["none", "before_raise", "search_start", "after_bestmove", "timer_wake"]
+POSITIONS = ["position startpos", "position startpos moves e2e4 e7e5", "position fen 8/8/8/4k3/8/8/4K3/8 w - - 0 1",
+             "position fen r3k2r/p1ppqpb1/bn2pnp1/3PN3/1p2P3/2N2Q1p/PPPBBPPP/R3K2R w KQkq - 0 1 moves e1g1",
+             "position fen 7k/5Q2/6K1/8/8/8/8/8 b - - 0 1", "position fen 8/8/8/8/8/5k2/8/6QK b - - 0 1"]
+
+
+def concrete_session(abstract, window, rnd, binary, sid, stretch_ms=120):
+    """One TLC-enumerated GUI command history (Uci.tla sentlog) as a script for the real binary.
+    q = TRUE means the GUI had seen an answer for every go when it sent the command: the driver
+    waits for the outstanding bestmoves first; q = FALSE: it sends at once."""
+    steps = [{"send": rnd.choice(POSITIONS)}]
+    pending_inf = False
+    for c in abstract:
+        if c["q"] and not pending_inf:
+            steps.append({"waitbest": 8})
+        k = c["c"]
+        if k == "position":
+            steps.append({"send": rnd.choice(POSITIONS), "afterbest": bool(c["q"])})
+        elif k == "go_depth":
+            steps.append({"send": "go depth %d" % rnd.choice([1, 2, 3]), "afterbest": bool(c["q"])})
+        elif k == "go_time":
+            steps.append({"send": "go movetime %d" % rnd.choice([0, 3, 6, 25, 60]), "afterbest": bool(c["q"])})
+        elif k == "go_inf":
+            steps.append({"send": "go infinite", "afterbest": bool(c["q"])})
+            pending_inf = True
+        elif k == "stop":
+            steps.append({"send": "stop"})
+            pending_inf = False
+        elif k == "wait":
+            steps.append({"send": "wait"})
+        else:
+            steps.append({"send": k})
+        if k == "ucinewgame":
+            pending_inf = False
+    env = {} if window == "none" else {"VERIF_SCHED_" + window: str(stretch_ms)}
+    return {"id": sid, "binary": binary, "env": env, "steps": steps}
+
+
+def random_session(rnd, binary, sid, n, window):
+    """long randomized session obeying the go discipline; delays 0-20 ms"""
+    steps = []
+    pending = False
+    infinite = False
+    have_pos = False
+    for _ in range(n):
+        r = rnd.random()
+        if r < 0.22:
+            steps.append({"send": rnd.choice(POSITIONS), "afterbest": not pending})
+            have_pos = have_pos or not pending
+        elif r < 0.45 and not pending:
+            if not have_pos:
+                steps.append({"send": rnd.choice(POSITIONS)})
+            g = rnd.choice(["go depth 1", "go depth 2", "go depth 3", "go movetime 0", "go movetime 7", "go movetime 30", "go infinite",
+                            "go wtime 300 btime 300 winc 0 binc 0", "go wtime 9000 btime 9000 winc 10 binc 10"])
+            steps.append({"send": g, "afterbest": True})
+            pending = True
+            infinite = g == "go infinite"
+            have_pos = False
+        elif r < 0.60:
+            steps.append({"send": "isready"})
+        elif r < 0.72 and pending:
+            steps.append({"send": "stop"})
+            steps.append({"waitbest": 8})
+            pending = False
+        elif r < 0.80 and pending and not infinite:
+            steps.append({"waitbest": 8})
+            pending = False
+        elif r < 0.84:
+            steps.append({"send": "ucinewgame"})
+            if pending:
+                steps.append({"waitbest": 8})
+            pending = False
+            have_pos = False
+        elif r < 0.90:
+            steps.append({"send": "show"})
+        elif r < 0.93 and pending and not infinite:
+            steps.append({"send": "wait"})
+            steps.append({"waitbest": 8})
+            pending = False
+        else:
+            steps.append({"sleep": rnd.choice([0, 0.001, 0.005, 0.02])})
+    steps.append({"quit": True}) if rnd.random() < 0.5 else None
+    env = {} if window == "none" else {"VERIF_SCHED_" + window: str(rnd.choice([5, 40, 120]))}
+    return {"id": sid, "binary": binary, "env": env, "steps": steps}
+
+
+def uci_model(run, maxcmds, tag, liveness=True):
+    cfg = os.path.join(core.BUILD, "cfg", "Uci_%s.cfg" % tag)
+    os.makedirs(os.path.dirname(cfg), exist_ok=True)
+    with open(cfg, "w") as f:
+        f.write("SPECIFICATION Spec\nCONSTANTS NGO = 2  MAXCMDS = %d  RaiseFirst = TRUE  ClearFirst = TRUE  TakeGame = TRUE\nINVARIANT AtMostOneBest Honoured NoPanic RightPosition\n%sCHECK_DEADLOCK FALSE\n"
+                % (maxcmds, "PROPERTY BoundedGoAnswered ReadyAnswered\n" if liveness else ""))
+    res = core.tlc_mc("Uci", cfg, workers=14, tag="uci-" + tag, heap="16g", coverage=True)
+    cov = core.coverage_counts(res["output"])
+    if res["violated"]:
+        raise core.ToolError("Uci.tla (repaired order) violates %s - design-level model out of date?" % res["violated"])
+    res["output"] = ""
+    run.add_mc(res, {"NGO": 2, "MAXCMDS": maxcmds, "liveness": liveness,
+                     "labels_taken": sorted(k for k, v in cov.items() if v[0] > 0 and len(k) <= 3)})
+
+
+def uci_sessions(run, tag):
+    res = core.tlc_mc("Uci", "mc/Uci_sessions.cfg", workers=14, tag="uci-sess-" + tag, heap="16g")
+    ss = sorted(set(re.findall(r'^<<"SESSION", "(.*)">>$', res["output"], re.M)))
+    res["output"] = ""
+    run.add_mc(res, {"sessions_emitted": len(ss)})
+    return [json.loads(core._unescape(x)) for x in ss]
+
+
+@check("C14")
+def c14(tier, seed):
+    import random
+    run = core.Run("C14", tier, seed)
+    prepare()
+    quick = tier == "quick"
+    rnd = random.Random(seed)
+    binary = core.build_bin(False)
+    checked = core.build_bin(True)
+    game.trace_dir("C14")
+    # (M) all interleavings of stdin loop / search thread / timer thread / GUI in the design model
+    uci_model(run, 4, "C14", liveness=True)
+    if not quick:
+        uci_model(run, 5, "C14b", liveness=False)
+    # (B) spec -> impl: every GUI command history of the model x every stretched window, on the real binary
+    abstract = uci_sessions(run, "C14")
+    rnd.shuffle(abstract)
+    take = abstract[:60 if quick else 1200]
+    sessions = []
+    for i, a in enumerate(take):
+        for w in (WINDOWS if not quick else [WINDOWS[i % len(WINDOWS)], "after_bestmove" if i % 2 else "before_raise"]):
+            sessions.append(concrete_session(a, w, rnd, binary if i % 5 else checked, "tlc-%d-%s" % (i, w)))
+    # the three named races, explicitly
+    for w in WINDOWS:
+        env = {} if w == "none" else {"VERIF_SCHED_" + w: "250"}
+        for b, bn in ((binary, "rel"), (checked, "chk")):
+            sessions.append({"id": "race-afterbest-%s-%s" % (w, bn), "binary": b, "env": env, "steps": [
+                {"send": "position startpos"}, {"send": "go depth 2"}, {"waitbest": 8},
+                {"send": "position startpos moves e2e4", "afterbest": True}, {"send": "go depth 2", "afterbest": True}, {"waitbest": 8},
+                {"send": "position startpos moves e2e4 e7e5", "afterbest": True}, {"send": "go movetime 20", "afterbest": True}, {"waitbest": 8}, {"quit": True}]})
+            sessions.append({"id": "race-timer-%s-%s" % (w, bn), "binary": b, "env": env, "steps": [
+                {"send": "position startpos"}, {"send": "go movetime 0"}, {"waitbest": 8},
+                {"send": "position startpos"}, {"send": "go movetime 6"}, {"waitbest": 8},
+                {"send": "position startpos"}, {"send": "go wtime 100 btime 100 winc 0 binc 0"}, {"waitbest": 8}, {"quit": True}]})
+            sessions.append({"id": "race-stop-%s-%s" % (w, bn), "binary": b, "env": env, "steps": [
+                {"send": "position startpos"}, {"send": "go infinite", "nofence": True}, {"send": "stop"}, {"waitbest": 8},
+                {"send": "position startpos"}, {"send": "go infinite"}, {"send": "isready"}, {"send": "ucinewgame"}, {"waitbest": 8},
+                {"send": "position fen 8/8/8/4k3/8/8/4K3/8 w - - 0 1"}, {"send": "go infinite"}, {"sleep": 1.0}, {"send": "isready"}, {"send": "stop"}, {"waitbest": 8},
+                {"send": "position startpos"}, {"send": "go infinite"}, {"quit": True}]})
+    # randomized long sessions
+    for i in range(14 if quick else 120):
+        sessions.append(random_session(rnd, binary if i % 3 else checked, "random-%d" % i, 120 if quick else 600, WINDOWS[i % len(WINDOWS)]))
+    outs, n = run_sessions(run, "C14", sessions, {"C14"}, "sessions")
+    cmds = 0
+    kinds = {}
+    for out, _ in outs:
+        for l in open(out):
+            e = json.loads(l)
+            if e.get("ev") == "cmd":
+                cmds += 1
+                kinds[e["kind"]] = kinds.get(e["kind"], 0) + 1
+    for sd in sessions[:2] + sessions[-1:]:
+        run.sample({"id": sd["id"], "env": sd["env"], "steps": sd["steps"][:12]})
+    run.cov["evaluations"] = cmds
+    run.cov["distinct_nontrivial"] = len(sessions)
+    run.cov["sessions"] = len(sessions)
+    run.cov["commands_by_kind"] = kinds
+    run.cov["rule"] = ("one case = one UCI session on the real binary: a GUI command history enumerated by TLC from Uci.tla (4 commands, "
+                       "quiescent / not quiescent at each send) x one stretched schedule window (hook sleep), the named race scripts in "
+                       "every window on the release and the checked build, and long randomized sessions; distinct = distinct sessions; "
+                       "evaluations = commands sent")
+    run.assumptions += SESSION_ASSUME
+    shutil.rmtree(os.path.join(game.TRACES, "C14"), ignore_errors=True)
+    run.finish()
